@@ -157,4 +157,109 @@ theorem changeStep_gt_sorted (cfg : Cfg) (hr : cfg.repaired = true) (t : Target)
       rw [← h]; intro h0; exact lookupPhase_ne_nil hp (sortNat_eq_nil h0)
     rw [hcanon hne, h]
 
+theorem updateCall_fst (cfg : Cfg) (t : Target) (r : Record) (c : Call) :
+    (updateCall cfg t r c).1 =
+      match alookup t.comps r.pos, lookupPhase cfg.mav t r.pos with
+      | some comp, some p =>
+        if (changeStep cfg t r c).2.2 then setTag cfg.tag (changeStep cfg t r c).1 comp p
+        else (changeStep cfg t r c).1.set cfg.tag.key .missing
+      | _, _ => (changeStep cfg t r c).1.set cfg.tag.key .missing := by
+  unfold updateCall
+  generalize changeStep cfg t r c = cs
+  obtain ⟨c1, chg, isHet⟩ := cs
+  cases h1 : alookup t.comps r.pos <;> cases h2 : lookupPhase cfg.mav t r.pos <;> simp only []
+  split <;> rfl
+
+
+/-- the records produced for a chromosome are `writeRecord` outputs of its input records -/
+theorem mem_writeChrom (cfg : Cfg) (rs : List Record) (prev : Option Nat) (o : Out) (h : o ∈ writeChrom cfg prev rs) :
+    ∃ prev' r, r ∈ rs ∧ o = writeRecord cfg prev' r := by
+  induction rs generalizing prev with
+  | nil => simp [writeChrom] at h
+  | cons r rest ih =>
+    simp only [writeChrom, List.mem_cons] at h
+    rcases h with rfl | h
+    · exact ⟨prev, r, List.mem_cons_self, rfl⟩
+    · obtain ⟨p', r', hr', ho⟩ := ih _ h
+      exact ⟨p', r', List.mem_cons_of_mem _ hr', ho⟩
+
+
+theorem range_two : List.range 2 = [0, 1] := by decide
+
+theorem mem_blocksAsReads {rows : List VarPhase} {b : Option Int} {i : Nat} {rd : List (Nat × Option Nat)} :
+    (b, i, rd) ∈ blocksAsReads 2 rows ↔
+      b ∈ blockKeys (rows.filter (eligible 2)) ∧ (i = 0 ∨ i = 1) ∧
+      rd = pseudoRead (rows.filter (eligible 2)) b i ∧ rd.length > 1 := by
+  simp only [blocksAsReads, range_two, List.mem_flatMap, List.mem_filterMap, List.mem_cons, List.not_mem_nil, or_false]
+  constructor
+  · rintro ⟨b', hb', i', hi', h⟩
+    split at h
+    · rename_i hlen
+      simp only [Option.some.injEq, Prod.mk.injEq] at h
+      obtain ⟨rfl, rfl, rfl⟩ := h
+      exact ⟨hb', hi', rfl, hlen⟩
+    · cases h
+  · rintro ⟨hb, hi, rfl, hlen⟩
+    exact ⟨b, hb, i, hi, by simp [hlen]⟩
+
+
+theorem changeStep_gcode (cfg : Cfg) (t : Target) (r : Record) (c : Call) (p : List Nat)
+    (hp : lookupPhase cfg.mav t r.pos = some p) : gcode (changeStep cfg t r c).1.gt = sortNat p := by
+  simp only [changeStep, hp]
+  split
+  · exact gcode_changedGt cfg p
+  · rename_i h; simp only [ne_eq, Decidable.not_not] at h; exact h.symm
+
+/-- the call of a target sample after `write` (repaired writer): either it carries no phase information at all,
+    or the record was processed, the position is phased and heterozygous in this run, and the call's genotype
+    has exactly the alleles of the written phase -/
+theorem finalCall_summary (cfg : Cfg) (hr : cfg.repaired = true) (prev : Option Nat) (r : Record)
+    (n : String) (t : Target) (hft : findTarget cfg n = some t) (c : Call) (hwf : WfCall r.format c) :
+    ((finalCall cfg prev r n c).phased = false ∧ (finalCall cfg prev r n c).get "PS" = .missing ∧
+      (finalCall cfg prev r n c).get "HP" = .missing) ∨
+    (reaches cfg prev r = true ∧ ∃ comp p, alookup t.comps r.pos = some comp ∧ lookupPhase cfg.mav t r.pos = some p ∧
+      isHom (sortNat p) = false ∧ gcode (finalCall cfg prev r n c).gt = sortNat p) := by
+  have hHP0 := cleared_get_HP cfg hr r.format c hwf
+  have hPS0 := cleared_get_PS cfg hr r.format c hwf
+  have hph0 := cleared_phased cfg hr r.format c hwf
+  have hfin : finalCall cfg prev r n c =
+      if reaches cfg prev r then (updateCall cfg t r (clearPhasing cfg r.format c)).1 else clearPhasing cfg r.format c := by
+    simp only [finalCall, hft]
+  rw [hfin]
+  generalize clearPhasing cfg r.format c = c0 at hHP0 hPS0 hph0
+  by_cases hreach : reaches cfg prev r = true
+  · simp only [hreach, if_true]
+    have hf1 := changeStep_fields cfg t r c0
+    have hp1 := changeStep_phased cfg t r c0 hph0
+    have hHP1 : (changeStep cfg t r c0).1.get "HP" = .missing := by simpa [Call.get, hf1] using hHP0
+    have hPS1 : (changeStep cfg t r c0).1.get "PS" = .missing := by simpa [Call.get, hf1] using hPS0
+    have hun : (((changeStep cfg t r c0).1.set cfg.tag.key .missing).phased = false ∧
+        ((changeStep cfg t r c0).1.set cfg.tag.key .missing).get "PS" = .missing ∧
+        ((changeStep cfg t r c0).1.set cfg.tag.key .missing).get "HP" = .missing) := by
+      refine ⟨by simpa using hp1, ?_, ?_⟩
+      · cases htag : cfg.tag
+        · exact Call.get_set_same _ _ _
+        · rw [Call.get_set_other _ _ _ _ (by decide)]; exact hPS1
+      · cases htag : cfg.tag
+        · rw [Call.get_set_other _ _ _ _ (by decide)]; exact hHP1
+        · exact Call.get_set_same _ _ _
+    rw [updateCall_fst]
+    cases hcomp : alookup t.comps r.pos with
+    | none => exact Or.inl hun
+    | some comp =>
+      cases hp : lookupPhase cfg.mav t r.pos with
+      | none => exact Or.inl hun
+      | some p =>
+        simp only [changeStep_isHet cfg t r c0 p hp]
+        cases hh : isHom (sortNat p) with
+        | true => simp only [Bool.not_true, Bool.false_eq_true, if_false]; exact Or.inl hun
+        | false =>
+          simp only [Bool.not_false, if_true]
+          refine Or.inr ⟨trivial, comp, p, rfl, rfl, hh, ?_⟩
+          cases htag : cfg.tag
+          · simp [setTag, setPS]
+          · simp only [setTag, setHP, Call.set_gt]; exact changeStep_gcode cfg t r c0 p hp
+  · simp only [hreach, Bool.false_eq_true, if_false]
+    exact Or.inl ⟨hph0, hPS0, hHP0⟩
+
 end WhVerif.C09
